@@ -250,6 +250,7 @@ def run(c, own):
                 c.sample({"plan": pname, "step": s, "result": l})
     finally:
         shutil.rmtree(base, ignore_errors=True)
+    c.traces_validated = c.evaluations
     c.rule = ("programs generated from the TLC enumeration of ArgBinding.tla (all signatures with <= 3 parameters; 4 in the thorough tier): per signature "
               "several call shapes, every other shape with the same binding image (equivalent form), rebuilt dict/set arguments, call_and_shelve().get(), "
               "one-parameter perturbations to near-colliding typed values (1/1.0/True/'1', 'a'/b'a', (1,)/[1], 0.0/-0.0, None/0/False, dict/list of pairs, "
